@@ -13,12 +13,12 @@ KEEP0 = ['_buffer', 'g_dispatched', 'IDLE', 'CONNECTING', 'CONNECTED', 'protocol
         'onPublish', 'onDisconnection', 'onMqttConnectionMade',
         'state', 'connReq', 'keepalive', 'timer', 'pdu', 'lc_running', 'lc_interval', 'lc_fn', 'lc_owner',
         'tr_aborts', 'tr_closes', 'cleanStart', 'version', 'session', 'resultCode', 'granted']
-KEEP = KEEP0 + ['g_firing', 'id', 'g_base']
+KEEP = KEEP0 + ['g_firing', 'id', 'g_base', 'g_addr']
 KEEP_API = KEEP0 + ['qos', 'topic', 'retain', 'payload', 'g_firing', 't_status', 't_fn', 't_arg', 't_owner', 't_delay', 'd_fired', 'd_ok', 'd_val', 'd_owner']        # API calls may draw a packet identifier
 
 
 # what releasing held-back publishes never touches in addition: Deferred outcomes, existing timers, request fields
-KEEP_REFILL0 = KEEP0 + ['g_base', 'd_fired', 'd_ok', 'd_val', 'd_owner', 'deferred', 'msgId', 'qos', 'topic', 'retain',
+KEEP_REFILL0 = KEEP0 + ['g_base', 'g_addr', 'd_fired', 'd_ok', 'd_val', 'd_owner', 'deferred', 'msgId', 'qos', 'topic', 'retain',
                         'payload', 't_status', 't_fn', 't_arg', 't_owner', 't_delay', 'q_pos', 'initial', 'factor',
                         'bandwith', 'maxDelay', 'id']
 KEEP_REFILL = KEEP_REFILL0 + ['g_firing', 'retries', '$dq', '$dqt']      # refilling only ever pops from the left
